@@ -146,7 +146,10 @@ def _core(cls, field, spec, p_local):
         return conv(B=core.triangle_Bfield(o, np.array([spec["vertices"]], dtype=float), pol[None])[0])
     if cls == "Polyline":
         V = np.asarray(spec["vertices"], dtype=float)
-        return conv(H=core.current_polyline_Hfield(o, V[None, 0], V[None, 1], np.array([spec["current"]], dtype=float))[0])
+        keep = np.any(V[:-1] != V[1:], axis=1)  # the core function is documented for segments of non-zero length
+        A, B = V[:-1][keep], V[1:][keep]
+        n = len(A)
+        return conv(H=np.sum(core.current_polyline_Hfield(np.repeat(o, n, 0), A, B, np.full(n, float(spec["current"]))), axis=0))
     if cls == "Circle":
         r0 = spec["diameter"] / 2
         r, phi = np.hypot(o[0, 0], o[0, 1]), np.arctan2(o[0, 1], o[0, 0])
